@@ -14,6 +14,10 @@ import ZxVerif.Lemmas.C13
 namespace ZxVerif.C13
 open ZxVerif.Snap
 
+theorem save_pure_all (s : Machine) : snaSaveEffect Fixes.all s = s := by
+  unfold snaSaveEffect
+  split <;> rfl
+
 /-- **C13, 128K round trip (repaired code).** For ALL reachable 128K states `s` (any registers, any
 7FFD value incl. lock, any RAM, hence every bank n at 0xC000 and both file sizes) and ALL states `r`
 of the receiving 128K emulator (halted, mid prefix chain, EI pending, paging locked, other border,
@@ -28,6 +32,16 @@ theorem sna_roundtrip_128 (s r : Machine) (hs : WF128 s) (hr : r.kind = .k128) :
   · have h := exec_of_loaded128 Fixes.all s r
     simp only [execState, Cpu.resetExec, Fixes.all, if_true, Prod.mk.injEq] at h
     exact h
+
+/-- **C13, back into the same emulator.** The receiver may be the saving machine itself (after
+`save`): its latch then already holds exactly the byte the file carries — the restore must still
+re-apply it, in particular the lock. -/
+theorem sna_roundtrip_same_emulator (s : Machine) (hs : WF128 s) :
+    ∃ s', snaLoad Fixes.all (snaSave Fixes.all s) (snaSaveEffect Fixes.all s) = .ok s' ∧
+      Restored128 s s' ∧ CleanExec s' ∧ s'.pagingEnabled = s.pagingEnabled := by
+  rw [save_pure_all s]
+  obtain ⟨s', h1, h2, h3⟩ := sna_roundtrip_128 s s hs hs.kind
+  exact ⟨s', h1, h2, h3, h2.2.2.2.2.1⟩
 
 /-- **C13, 128K round trip, the code as it is.** The same holds for the unrepaired code provided
 the state has HL' = HL (defect: `get_h_alt/get_l_alt`) and the receiver is not paging-locked
